@@ -261,6 +261,23 @@ class SplitModel:
             raise Unknown(f"subscript `{src(e)}`")
         if isinstance(e, ast.Tuple):
             return tuple(self.ev(x) for x in e.elts)
+        if isinstance(e, (ast.ListComp, ast.GeneratorExp)) and len(e.generators) == 1 and not e.generators[0].ifs \
+                and isinstance(e.generators[0].target, ast.Name):
+            # [E(r) for r in <table>]: the table of the element expression
+            g = e.generators[0]
+            it = self.ev(g.iter)
+            if isinstance(it, Tab):
+                saved = self.env.get(g.target.id, None)
+                self.env[g.target.id] = it.expr
+                try:
+                    el = self.scalar(self.ev(e.elt))
+                finally:
+                    if saved is None:
+                        self.env.pop(g.target.id, None)
+                    else:
+                        self.env[g.target.id] = saved
+                return Tab(el, it.length)
+            raise Unknown(f"comprehension over `{src(g.iter)[:40]}`")
         if isinstance(e, ast.Call):
             f = src(e.func)
             args = e.args
@@ -378,6 +395,25 @@ class SplitModel:
                         for x, w in zip(t.elts, v):
                             self.env[x.id] = w
                         continue
+                    if isinstance(t, ast.Tuple):
+                        # several per-axis entries stored at once: from a tuple of values, or from a slice of the table of that length
+                        keys = []
+                        for x in t.elts:
+                            xs = src(x).replace(" ", "")
+                            k_ = [key for key in ("starts", "ends", "shape", "max_shape") if xs == f"self._{key}[{ax}]"]
+                            keys.append(k_[0] if k_ else None)
+                        v = self.ev(st.value)
+                        if None in keys:
+                            raise Unknown(f"targets of `{src(st)[:50]}`")
+                        if isinstance(v, tuple) and len(v) == len(keys):
+                            vals = list(v)
+                        elif isinstance(v, Tab) and sp.simplify(v.length - len(keys)) == 0:
+                            vals = [v.at(sp.Integer(j)) for j in range(len(keys))]
+                        else:
+                            raise Unknown(f"`{src(st.value)[:40]}` is not a sequence of {len(keys)} entries")
+                        for key, w in zip(keys, vals):
+                            self.sinks[key] = (sp.expand(w) if not isinstance(w, (Tab, tuple)) else w, st)
+                        continue
                     ts = src(t).replace(" ", "")
                     for key in ("starts", "ends", "shape", "max_shape"):
                         if ts == f"self._{key}[{ax}]":
@@ -426,7 +462,7 @@ class SplitModel:
                 a, b = evv(e.left), evv(e.right)
                 if isinstance(a, Vec) and isinstance(b, Vec):
                     return Vec(a.expr - b.expr if isinstance(e.op, ast.Sub) else a.expr + b.expr)
-            if isinstance(e, ast.Call) and src(e.func) in ("tuple", "list", "np.array", "np.asarray") and len(e.args) == 1:
+            if isinstance(e, ast.Call) and src(e.func) in ("tuple", "list", "np.array", "np.asarray", "int", "np.int64") and len(e.args) == 1:
                 return evv(e.args[0])
             if isinstance(e, ast.Call) and src(e.func) in ("np.prod", "numpy.prod") and len(e.args) == 1:
                 a = evv(e.args[0])
@@ -720,21 +756,7 @@ def grid_accessors(chk):
     derived_state(chk)
     # getGlobalIndices: local index of axis i + start of axis i, stored at the dimension of axis i
     from ..core import contains as _contains, same_expr as _same
-    fn = chk.func(U.GRID, "Grid.getGlobalIndices")
-    ok = _contains(fn, "for i, toAdd in enumerate(self._layout.starts):\n    result[self._layout.dims_order[i]] = indices[i] + toAdd") or \
-        _contains(fn, "for i, (dim, toAdd) in enumerate(zip(self._layout.dims_order, self._layout.starts)):\n    result[dim] = indices[i] + toAdd")
-    bad = None
-    if not ok:
-        st_ = [n for n in ast.walk(fn) if isinstance(n, ast.Assign) and isinstance(n.targets[0], ast.Subscript) and src(n.targets[0].value) == "result"]
-        if len(st_) == 1 and isinstance(parent(st_[0]), ast.For) and _same(parent(st_[0]).iter, "enumerate(self._layout.starts)"):
-            key, val = st_[0].targets[0].slice, st_[0].value
-            if not _same(key, "self._layout.dims_order[i]"):
-                bad = f"the global index is stored at `{src(key)}`, not at the dimension carried by axis i (self._layout.dims_order[i])"
-            elif not _same(val, "indices[i] + toAdd"):
-                bad = f"the stored value `{src(val)}` is not the local index of axis i plus the start of axis i"
-    chk.pat("C-sort", fn, "result[dims_order[i]] = indices[i] + starts[i]", ok,
-            "the local index along axis i plus the start of axis i is stored at the dimension carried by axis i", bad,
-            file=U.GRID, func="Grid.getGlobalIndices")
+    global_indices_rule(chk)
     # getGlobalIdxVals = range(start, end) of the same axis
     fn = chk.func(U.GRID, "Grid.getGlobalIdxVals")
     r = [n for n in ast.walk(fn) if isinstance(n, ast.Return)]
@@ -746,6 +768,189 @@ def grid_accessors(chk):
     chk.pat("C-sort", fn, "range(starts[i], ends[i])", ok, "global indices of the local block along axis i", bad,
             file=U.GRID, func="Grid.getGlobalIdxVals")
     return n_obs
+
+
+# ------------------------------------------------------------------ getGlobalIndices, read as a list indexed through a permutation
+class PerAxis:
+    """a sequence whose entry k is f(w(k)): f an expression in the layout-axis number `a`, w a word over the layout's ordering
+    L = dims_order (position -> dimension) and its inverse (identity word: the sequence is indexed by the layout axis)"""
+
+    def __init__(self, f, w):
+        self.f, self.w = f, w
+
+
+class PermList:
+    """dims_order (word L) / inv_dims_order (word L^-1) / range(n) (identity)"""
+
+    def __init__(self, w):
+        self.w = w
+
+
+class Elem:
+    """the scalar f(w(k)) inside a loop or comprehension whose counter is k"""
+
+    def __init__(self, f, w):
+        self.f, self.w = f, w
+
+
+class Idx:
+    """the number w(k) inside a loop or comprehension whose counter is k"""
+
+    def __init__(self, w):
+        self.w = w
+
+
+class _NoRead(Exception):
+    pass
+
+
+def global_indices_rule(chk):
+    """Grid.getGlobalIndices(*indices): local indices are given per layout AXIS; the result lists the global index per DIMENSION:
+    result[d] = indices[inv_dims_order[d]] + starts[inv_dims_order[d]].  The function body is read as operations on sequences
+    indexed through a permutation (scatter through dims_order == gather through inv_dims_order), whatever loop/comprehension/numpy form
+    it is written in."""
+    from ..permcheck import w_id, w_sym, w_inv, w_mul, w_str
+    fn = chk.func(U.GRID, "Grid.getGlobalIndices")
+    a = sp.Symbol("a", integer=True)
+    IND, TAB = sp.Function("indices"), {k: sp.Function(k) for k in ("starts", "ends", "shape")}
+    L = w_sym("L")
+    rule, what = "C-sort", "result[dims_order[i]] = indices[i] + starts[i]"
+    good = "the local index along axis i plus the start of axis i is stored at the dimension carried by axis i"
+    env = {}
+    if fn.args.vararg is not None:
+        env[fn.args.vararg.arg] = PerAxis(IND(a), w_id())
+    else:
+        for x in fn.args.args[1:2]:
+            env[x.arg] = PerAxis(IND(a), w_id())
+    lay_alias = {"self._layout"}
+
+    def ev(e, env):
+        t = src(e)
+        if isinstance(e, ast.Name):
+            if e.id in env:
+                return env[e.id]
+            raise _NoRead(f"name `{e.id}`")
+        if isinstance(e, ast.Attribute) and src(e.value) in lay_alias:
+            if e.attr in TAB:
+                return PerAxis(TAB[e.attr](a), w_id())
+            if e.attr == "dims_order":
+                return PermList(L)
+            if e.attr == "inv_dims_order":
+                return PermList(w_inv(L))
+            raise _NoRead(f"`{t}`")
+        if isinstance(e, ast.Constant) and isinstance(e.value, int):
+            return sp.Integer(e.value)
+        if isinstance(e, ast.Call):
+            f = src(e.func)
+            if f in ("list", "tuple", "np.array", "np.asarray", "numpy.array", "numpy.asarray") and len(e.args) == 1:
+                return ev(e.args[0], env)
+            if f == "range" and len(e.args) == 1:
+                return PermList(w_id())
+            raise _NoRead(f"call `{t[:40]}`")
+        if isinstance(e, ast.BinOp) and isinstance(e.op, (ast.Add, ast.Sub)):
+            x, y = ev(e.left, env), ev(e.right, env)
+            for cls_ in (Elem, PerAxis):
+                if isinstance(x, cls_) and isinstance(y, cls_):
+                    if x.w != y.w:
+                        raise _NoRead(f"`{t[:50]}` combines entries taken through different orderings ({w_str(x.w)} and {w_str(y.w)})")
+                    return cls_(x.f + y.f if isinstance(e.op, ast.Add) else x.f - y.f, x.w)
+            raise _NoRead(f"`{t[:50]}`")
+        if isinstance(e, ast.Subscript):
+            base, k = ev(e.value, env), None
+            sl = e.slice
+            key = ev(sl, env)
+            if isinstance(base, PerAxis) and isinstance(key, Idx):
+                return Elem(base.f, w_mul(base.w, key.w))
+            if isinstance(base, PermList) and isinstance(key, Idx):
+                return Idx(w_mul(base.w, key.w))
+            if isinstance(base, PerAxis) and isinstance(key, PermList):
+                return PerAxis(base.f, w_mul(base.w, key.w))          # fancy indexing: a gather
+            raise _NoRead(f"subscript `{t[:50]}`")
+        if isinstance(e, (ast.ListComp, ast.GeneratorExp)) and len(e.generators) == 1 and not e.generators[0].ifs:
+            g = e.generators[0]
+            env2 = dict(env)
+            bind_iter(g.target, g.iter, env2)
+            r = ev(e.elt, env2)
+            if isinstance(r, Elem):
+                return PerAxis(r.f, r.w)
+            raise _NoRead(f"element `{src(e.elt)[:40]}` of the comprehension")
+        raise _NoRead(f"`{t[:50]}`")
+
+    def bind_iter(target, it, env):
+        """bind the targets of `for target in it` for the generic iteration k"""
+        if isinstance(it, ast.Call) and src(it.func) == "enumerate" and len(it.args) == 1 and isinstance(target, ast.Tuple) and len(target.elts) == 2:
+            if not isinstance(target.elts[0], ast.Name):
+                raise _NoRead("loop header")
+            env[target.elts[0].id] = Idx(w_id())
+            bind_iter(target.elts[1], it.args[0], env)
+            return
+        if isinstance(it, ast.Call) and src(it.func) == "zip" and isinstance(target, ast.Tuple) and len(target.elts) == len(it.args):
+            for t_, s_ in zip(target.elts, it.args):
+                bind_iter(t_, s_, env)
+            return
+        if not isinstance(target, ast.Name):
+            raise _NoRead("loop header")
+        v = ev(it, env)
+        if isinstance(v, PermList):
+            env[target.id] = Idx(v.w)
+        elif isinstance(v, PerAxis):
+            env[target.id] = Elem(v.f, v.w)
+        else:
+            raise _NoRead(f"iteration over `{src(it)[:40]}`")
+
+    result, why = None, None
+    try:
+        for st in fn.body:
+            if isinstance(st, ast.Expr) and isinstance(st.value, ast.Constant):
+                continue
+            if isinstance(st, ast.Assign) and len(st.targets) == 1 and isinstance(st.targets[0], ast.Name):
+                if src(st.value) == "self._layout":
+                    lay_alias.add(st.targets[0].id)
+                    continue
+                env[st.targets[0].id] = ev(st.value, env)
+                continue
+            if isinstance(st, ast.Assign) and len(st.targets) == 1 and isinstance(st.targets[0], ast.Subscript) \
+                    and isinstance(st.targets[0].value, ast.Name):
+                # R[P] = X : a scatter through the permutation P
+                key, val = ev(st.targets[0].slice, env), ev(st.value, env)
+                if isinstance(key, PermList) and isinstance(val, PerAxis):
+                    env[st.targets[0].value.id] = PerAxis(val.f, w_mul(val.w, w_inv(key.w)))
+                    continue
+                raise _NoRead(f"store `{src(st)[:50]}`")
+            if isinstance(st, ast.For) and not st.orelse and len(st.body) == 1 and isinstance(st.body[0], ast.Assign) \
+                    and len(st.body[0].targets) == 1 and isinstance(st.body[0].targets[0], ast.Subscript) \
+                    and isinstance(st.body[0].targets[0].value, ast.Name):
+                env2 = dict(env)
+                bind_iter(st.target, st.iter, env2)
+                b_ = st.body[0]
+                key, val = ev(b_.targets[0].slice, env2), ev(b_.value, env2)
+                if isinstance(key, Idx) and isinstance(val, Elem):
+                    # R[p(k)] = f(w(k)) for every k: R[j] = f(w(p^-1(j)))
+                    env[b_.targets[0].value.id] = PerAxis(val.f, w_mul(val.w, w_inv(key.w)))
+                    continue
+                raise _NoRead(f"store `{src(b_)[:50]}`")
+            if isinstance(st, ast.Return) and st.value is not None:
+                result = ev(st.value, env)
+                break
+            raise _NoRead(f"statement `{src(st)[:50]}`")
+    except _NoRead as e:
+        why = str(e)
+    ok, bad = None, None
+    if isinstance(result, PerAxis):
+        want_f = IND(a) + TAB["starts"](a)
+        if sp.simplify(result.f - want_f) != 0:
+            bad = (f"entry of the result is `{result.f}` of a layout axis a, not the local index plus the start of that axis "
+                   "(indices(a) + starts(a))")
+        elif result.w == w_inv(L):
+            ok = True
+        else:
+            bad = (f"entry d of the result is the global index of layout axis {w_str(result.w)}(d) (L = dims_order), but dimension d is carried "
+                   "by axis inv_dims_order[d] = L^-1(d): scattering through dims_order is gathering through inv_dims_order, not through dims_order. "
+                   "The two agree only for orderings that are their own inverse (identity, one exchange of two axes); for any other ordering "
+                   "the global indices of different dimensions are exchanged")
+    o = chk.pat(rule, fn, what, ok, good, bad, file=U.GRID, func="Grid.getGlobalIndices")
+    if not ok and not bad:
+        o.msg = "Grid.getGlobalIndices could not be read as a sequence indexed through dims_order: " + (why or "no returned sequence")
 
 
 class _AliasToAttr(ast.NodeTransformer):
@@ -811,6 +1016,13 @@ def derived_state(chk):
         tg = [t for t in node.targets if isinstance(t, ast.Subscript)] if isinstance(node, ast.Assign) else []
         if tg and all(any(isinstance(x, ast.Attribute) and src(x) == "self._layout" for sub in _subscripts(t) for x in ast.walk(sub.slice))
                       for t in tg):
+            del derived[a]
+    # a SNAPSHOT of the layout (`self.a = self._layout`, later put back with `self._layout = self.a`) is meant to keep the layout
+    # of the moment it was taken: it is not a cache to refresh
+    for a, (node, meth) in list(derived.items()):
+        if isinstance(node, ast.Assign) and src(node.value) == "self._layout" and \
+                any(isinstance(n, ast.Assign) and any(src(t) == "self._layout" for t in n.targets) and src(n.value) == f"self.{a}"
+                    for n in ast.walk(cls)):
             del derived[a]
     missing = [(m_, n_, a) for m_, n_, a in missing if a in derived]
 
